@@ -33,10 +33,19 @@ Record config := {
   cfg_connect_start : Z;
   cfg_dial_timeout : Z
 }.
+(* [c_ctx_*] are GENERATED from mtproto/connect.go and mtproto/read.go (which context each call site
+   hands down): 0 = the function's own ctx, 1 = ctx wrapped with the dial timeout, 2 = wrapped
+   only when not PFS. *)
+Definition ctx_of (code : Z) (pfs : bool) (own dial : dl) : dl :=
+  if code =? 1 then dmin own dial
+  else if code =? 2 then (if pfs then own else dmin own dial)
+  else own.
 Definition run_ctx (c : config) : dl :=
-  if negb (cfg_pfs c) && negb (cfg_regen c)
-  then dmin (cfg_caller c) (Fin (cfg_connect_start c + cfg_dial_timeout c))
-  else cfg_caller c.
+  let dial := Fin (cfg_connect_start c + cfg_dial_timeout c) in
+  if cfg_regen c then ctx_of c_ctx_regen (cfg_pfs c) (cfg_caller c) dial
+  else if cfg_pfs c
+       then ctx_of c_ctx_pfs_perm true (ctx_of c_ctx_connect_pfs true (cfg_caller c) dial) dial
+       else ctx_of c_ctx_connect_nonpfs false (cfg_caller c) dial.
 
 (* One table row = (direction, bounded, restart):
    bounded: the call reaches conn.Send/Recv only under context.WithTimeout(ctx, timeout);
